@@ -191,6 +191,48 @@ def lbl1(ctx, lib, trie_insert):
     ctx.floor("LBL-1", "predecessor-set inserts guarded by the label", n, 1)
 
 
+def lbl3(ctx, lib):
+    """LBL-3: the trie lookup hands out an existing edge unchanged only if the edge's repetition maximum equals the inserted label's maximum (a dominating equality of
+    the same u32 accessor on both labels).  Reusing an edge on a weaker agreement - e.g. `max == max || min == min` - routes `x{2}` over an edge `x{2,3}`: the continuation of
+    the shorter run becomes reachable after the longer one and the language grows."""
+    rid = "LBL-3"
+    G = "grapheme::Grapheme"
+    n = 0
+    for b in lib.bodies:
+        if b.derived or b.kind == "closure" or not b.path.startswith("dfa::"):
+            continue
+        if not (b.sig_output or "").startswith("std::option::Option<petgraph") or not any(t == "&" + G for t in b.sig_inputs):
+            continue
+        fi = guards.FnInfo.of(b)
+        upd = [bi for bi, t in b.calls() if re.search(r"::update_edge$", callee_name(t) or "")]
+        for bi, blk in b.iter_blocks():
+            for st in blk["stmts"]:
+                if not (st["k"] == "assign" and st["place"]["l"] == 0 and not st["place"]["proj"] and st["rv"]["k"] == "aggregate"
+                        and st["rv"].get("agg") == "adt" and str(st["rv"].get("variant")) in ("Some", "1")):
+                    continue
+                if any(bi == u or bi in fi.cfg.reachable_from(u) and fi.cfg.dominates(u, bi) for u in upd):
+                    continue        # the widening path (TRI-1)
+                n += 1
+                eqs = []
+                for g in guards.guards(b, bi):
+                    o = local.peel(g["origin"])
+                    if o[0] == "binop" and o[1] == "Eq" and guards.edge_truth(g) is True and fi.cfg.edge_dominates(g["block"], g["succ"], bi):
+                        sides = [local.peel(x) for x in o[2:4]]
+                        if all(s_[0] == "call" and lib.body(s_[1]) is not None and lib.body(s_[1]).sig_inputs == ["&" + G] and lib.body(s_[1]).sig_output == "u32" for s_ in sides) \
+                                and sides[0][1] == sides[1][1] and sides[0][2] != sides[1][2]:
+                            eqs.append(sides[0][1])
+                has_max = any(re.search(r"max", e) for e in eqs)
+                if has_max:
+                    ctx.ok(rid, "%s:edge reused under equal maxima" % b.path, {"equalities": sorted(set(eqs))}, b.loc(st.get("line")))
+                elif eqs:
+                    ctx.undecided(rid, b.path, "an existing edge is reused under equality of %s only" % sorted(set(eqs)), b.loc(st.get("line")))
+                else:
+                    ctx.violation(rid, (b.path, "edge reused without equal maxima"), "the trie lookup returns an existing edge although no equality of the two labels' repetition "
+                                  "maxima dominates that return (a disjunction such as `max == max || min == min` does not): x{2} is then routed over an edge x{2,3}, and what follows "
+                                  "the shorter run is accepted after the longer one as well", b.loc(st.get("line")))
+    ctx.floor(rid, "returns of an existing edge by the trie lookup", n, 1)
+
+
 def lbl2(ctx, lib):
     """LBL-2: wherever the automaton code decides whether two edge labels are the same label (trie insertion, predecessor computation) it compares the labels' *entries*
     (`chars()`), not their joined text (`value()`): the literal text `\\` + `d` (two entries) and the class token `\\d` (one entry) have the same joined text."""
@@ -271,6 +313,8 @@ def run(ctx):
     lbl1(ctx, lib, ins)
     ctx.rule("LBL-2", "label identity in the automaton code is decided on the labels' entries (chars()), never on their joined text (value())")
     lbl2(ctx, lib)
+    ctx.rule("LBL-3", "the trie lookup reuses an existing edge unchanged only under a dominating equality of the two labels' repetition maxima")
+    lbl3(ctx, lib)
     from . import counting
     counting.rules(ctx)
     counting.chr1(ctx, lib)
